@@ -62,6 +62,7 @@ func (c *Conn) readable() bool {
 
 func (c *Conn) Read(p []byte) (int, error) {
 	c.Reads++
+	c.ReadCallAt = append(c.ReadCallAt, vsched.NowNS())
 	if len(p) == 0 {
 		return 0, nil
 	}
